@@ -235,6 +235,9 @@ let view_of_obs (o : string) : view =
   match obs_fields o with
   | [cr; ns; ps; las; act; fp] ->
       { v_gap_due = starts_with "DoPoll" fp;
+        v_scan_await = (let k = "ScanAwaitResponse" in
+                        let n = String.length fp and m = String.length k in
+                        let rec f i = i + m <= n && (String.sub fp i m = k || f (i + 1)) in f 0);
         v_conn = (match cr.[1] with '0' -> ConnOffline | '1' -> ConnPassive | _ -> ConnOnline);
         v_in_ring = (cr.[3] = '1'); v_kind = kind_of_name (state_name_of_obs o);
         v_ns = z_of_int (int_of_string ns); v_ps = z_of_int (int_of_string ps); v_las_valid = (las = "A");
@@ -257,6 +260,8 @@ let rule_name = function
   | R12_successor_changed_without_ready_reply -> "successor_changed_without_ready_reply" | R12_sweep_bound -> "sweep_bound"
   | R13_high_prio_inside_hold_time -> "high_prio_inside_hold_time"
   | R12_post_claim_scan_incomplete -> "post_claim_scan_incomplete"
+  | R12_gap_wait_never_ends -> "gap_wait_never_ends" | R11_supervision_never_ends -> "supervision_never_ends"
+  | R15_no_reply_no_timeout -> "no_reply_no_timeout"
   | R15_asked_after_all_declined -> "asked_after_all_declined" | R15_not_passed_after_all_declined -> "not_passed_after_all_declined"
   | R15_passed_before_all_declined -> "passed_before_all_declined" | R15_cycle_after_hold_time -> "cycle_after_hold_time"
   | R13_low_prio_after_hold_time -> "low_prio_after_hold_time" | R13_second_cycle_after_hold_time -> "second_cycle_after_hold_time"
@@ -272,7 +277,7 @@ let monitor_events (events : event list) : Model.event list =
     | Api (name, obs) ->
         EApi ((match name with "new" -> ApiNew | "on" -> ApiOnline | "off" -> ApiOffline | _ -> ApiPassive),
               (if obs = "" then { v_conn = ConnOffline; v_in_ring = false; v_kind = KOffline; v_ns = Z0; v_ps = Z0;
-                                  v_las_valid = false; v_active = []; v_gap_due = true } else view_of_obs obs))
+                                  v_las_valid = false; v_active = []; v_gap_due = true; v_scan_await = false } else view_of_obs obs))
     | Poll pr ->
         let tx = if pr.txs = "-" then None else Some (unhex pr.txs) in
         EPoll { s_now = z_of_int pr.now; s_busy = pr.busy; s_rx = unhex pr.rxs; s_tx = tx;
@@ -289,6 +294,10 @@ let handle (case : string) (out : string) : unit =
   if not rates_standard_ok then
     List.iter (fun pr -> report_fail pr "standard_baud_rates" case "Baudrate::to_rate differs from the standard bit rates")
       ["C01"; "C06"; "C11"; "C12"; "C13"];
+  (* which request kinds await a reply (C15: an application is asked again only when no reply is outstanding)
+     must be the standard's table (theorem C15_expects_reply_standard) *)
+  if not expects_reply_standard_ok then
+    report_fail "C15" "standard_expects_reply" case "RequestType::expects_reply differs from the standard table";
   let sections = List.map String.trim (String.split_on_char '/' case) in
   let header, rest = (match sections with h :: r -> (split_ws h, r) | [] -> raise (Bad "empty case")) in
   let p, _seed = (match header with
